@@ -535,6 +535,22 @@ def D36(tmp):
     return not ok, f"rebuild -d . counted {n} file(s), destination holds {sorted(os.listdir(dest))}"
 
 
+def D37(tmp):
+    """a recorded digest that happens to be valid UTF-8 is decoded as str by pyben: intact content must still give 100"""
+    d = os.path.join(tmp, "p")
+    _mk(d, {"a": b"x27632"})           # SHA-1 of these 6 bytes is valid UTF-8
+    mf = os.path.join(tmp, "m.torrent")
+    _create("TorrentFile", d, mf, piece_length=PL)
+    r = _recheck(mf, d)
+    # and rebuild must still recognise the intact file
+    from torrentfile.rebuild import Assembler
+    dest = os.path.join(tmp, "dest")
+    os.makedirs(dest)
+    _quiet(lambda: Assembler([mf], [d], dest).assemble_torrents())
+    rebuilt = os.path.isfile(os.path.join(dest, "p", "a"))
+    return (r != 100 or not rebuilt), f"digest is valid UTF-8: recheck of intact content reports {r}, rebuilt={rebuilt}"
+
+
 # D27/D28: known findings of rebuild
 def D27(tmp):
     def scatter(d, src):
